@@ -32,7 +32,18 @@ def main(argv=None):
         return mod.main(tier, seed, t0)
     cases = mod.cases(tier, seed)
     results = core.run_cases(mod, cases)
+    # history pass: every case (or every k-th, SECOND_SCHEDULE = k) once more in fresh worker processes, in reverse order
+    # and in contiguous blocks, so that each call also happens after a different set of predecessor calls
+    stride = getattr(mod, "SECOND_SCHEDULE", 1)
+    hist = None
+    if stride and len(cases) > 1:
+        order = list(range(len(cases)))[::-1][::stride]
+        hist = core.merge_second_schedule(results, core.run_cases(mod, cases, order=order, contiguous=True))
+        hist["second_schedule"] = "cases %s in descending order, one contiguous block per worker process" % ("all" if stride == 1 else "every %d-th" % stride)
     extra = mod.post(tier, seed, cases, results) if hasattr(mod, "post") else None
+    if hist:
+        extra = dict(extra or {})
+        extra.update(hist)
     kw = {}
     if extra:
         for k in ("states", "transitions", "traces"):
